@@ -200,11 +200,11 @@ def eval_program(arg) -> dict:
         return progrun.finish_program(prog, out, case, nontrivial=False)
     histories = []
     if stream == 0:
-        histories += [(['A', 'B'], h, True) for h in
+        histories += [(['B', 'A'] if seed % 2 else ['A', 'B'], h, True) for h in
                       exhaustive_histories(mci, cx_outs, 3 if tier == 'quick' else 4)]
     n_random = (300 if tier == 'quick' else 3000) if stream != 0 else (100 if tier == 'quick' else 500)
     for _ in range(n_random):
-        clients = ['A', 'B', 'C', 'D', 'E'][:rng.randint(1, 5)]
+        clients = scripts.client_ids(rng, rng.randint(1, 5))
         histories.append((clients, rand_history(rng, mci, clients, others, cx_outs,
                                                 rng.randint(1, 30)), False))
     for idx, (clients, history, exhaustive) in enumerate(histories):
